@@ -357,11 +357,14 @@ func RunCopy(cases []CopyCase) *CopyReport {
 			what = "forwarded bytes are not a prefix of the function response"
 		}
 		if what == "" && c.Mode == "Streaming" && c.Rate > 0 {
-			// volume forwarded by time t <= burst + rate * t (+ one refill quantum for the tick granularity)
+			// spec/TokenBucket.tla: the bucket holds at most `burst` tokens and receives rate*125ms tokens at every
+			// multiple of 125 ms, so the volume forwarded by time t is at most burst + floor(t/125ms) * quantum
+			// (40 ms of slack for the offset between the start of the throttler and the first write)
 			rep.RateChecks++
 			quantum := c.Rate * 125 / 1000
 			for _, s := range stamps {
-				allowed := c.Burst + int64(float64(c.Rate)*s.At.Seconds()) + quantum
+				ticks := int64((s.At + 40*time.Millisecond) / (125 * time.Millisecond))
+				allowed := c.Burst + ticks*quantum
 				if int64(s.Total) > allowed {
 					what = fmt.Sprintf("%d bytes forwarded after %v, bound is %d (burst %d, rate %d/s)", s.Total, s.At, allowed, c.Burst, c.Rate)
 					break
